@@ -91,7 +91,13 @@ def inputs(task, seed, n):
         if task == 'beat':
             out.append((events(rng, [0, 3, 9][small], 0, 20), events(rng, [2, 0, 8][small] if k < 3 else rng.randint(0, 9), 0, 20)))
         elif task == 'onset':
-            out.append((events(rng, rng.randint(0, 6)), events(rng, rng.randint(0, 6))))
+            r_ = events(rng, rng.randint(0, 6))
+            if k % 2 == 1 and len(r_):
+                # an estimate that follows the reference at lattice distances: windows decide what is a hit
+                e_ = np.array(sorted(max(0.0, t + rng.choice([0.0, 0.125, -0.125, 0.25, 0.375])) for t in r_))
+                out.append((np.array(sorted(set(r_.tolist()))), e_))
+            else:
+                out.append((r_, events(rng, rng.randint(0, 6))))
         elif task == 'segment':
             r = segmentation(rng, rng.randint(1, 4), t_end=8.0)
             e = segmentation(rng, rng.randint(1, 4), t_end=[8.0, 6.0, 9.5][small])
@@ -105,6 +111,9 @@ def inputs(task, seed, n):
             t = np.arange(n_f) * 0.125
             rf = np.array([rng.choice([0.0, freq(rng), freq(rng)]) for _ in range(n_f)])
             ef = np.array([rng.choice([0.0, freq(rng), -freq(rng), rf[i]]) for i in range(n_f)])
+            if k % 2 == 1:
+                # estimates some cents (or an octave and some cents) off: the tolerance decides what is correct
+                ef = np.array([f * 2 ** (rng.choice([10, -30, 60, -80, 1230, 0]) / 1200.0) for f in rf])
             out.append((t, rf, t if small else t + 0.0, ef, None if small != 1 else np.array([rng.choice([0.0, 0.5, 1.0]) for _ in range(n_f)]), None))
         elif task == 'multipitch':
             n_f = rng.randint(1, 5)
@@ -112,6 +121,10 @@ def inputs(task, seed, n):
             rf = [np.array([freq(rng) for _ in range(rng.randint(0, 3))]) for _ in range(n_f)]
             te = t if small else np.arange(n_f + 1) * 0.125 - 0.125
             ef = [np.array([freq(rng) for _ in range(rng.randint(0, 3))]) for _ in range(len(te))]
+            if k % 2 == 1:
+                # estimates a fraction of a semitone (or an octave and a fraction) off the reference: the window decides what is a hit
+                ef = [np.array([f * 2 ** (rng.choice([0.3, -0.3, 0.8, -0.8, 12.3, -11.2, 0.0]) / 12.0) for f in rf[min(max(j - (0 if small else 1), 0), n_f - 1)]])
+                      for j in range(len(te))]
             out.append((t, rf, te, ef))
         elif task == 'transcription':
             ri, rp = notes(rng, rng.randint(0, 4))
